@@ -112,6 +112,7 @@ class ExceptIf(ConclusionSelector):
                 output.update(right_value)
                 yield output
                 self._conclusion_.clear()
+            self.mark_cache_covered(left_value, self.right_cache)
             if not right_yielded:
                 self._conclusion_.update(self.left._conclusion_)
                 yield left_value
